@@ -1037,10 +1037,15 @@ func TestCheck(t *testing.T) {
 	for _, h := range []string{"a..zz", ".a.zz", "a.zz..", "..", ".", "a...b.zz", "www..zz"} {
 		empties = append(empties, h, h+":8443", "https://"+h+"/p")
 	}
-	r.ParallelW("forms", len(lits)+len(empties), 1, func(i int, rng *mrand.Rand) {
+	// a port that is no port: the name must not go on the wire with the colon in it
+	badPorts := []string{"a.zz:70000", "a.zz:65536", "a.zz:-1", "a.zz:abc", "a.zz:44x", "https://a.zz:70000/p", "a.zz:8443:1"}
+	// an empty port is the default port (RFC 3986 section 3.2.3)
+	emptyPorts := []string{"https://a.zz:/p", "https://a.zz:", "a.zz:"}
+	r.ParallelW("forms", len(lits)+len(empties)+len(badPorts)+len(emptyPorts), 1, func(i int, rng *mrand.Rand) {
 		srv := <-servers
 		defer func() { servers <- srv }()
 		z := dohfake.NewZone()
+		z.Add(dohfake.Addr("a.zz", netip.MustParseAddr("10.1.2.3"), 60))
 		z.NXUnknown = i%2 == 0
 		srv.Reset(z)
 		resolver, err := ech.NewResolver(srv.URL)
@@ -1051,10 +1056,16 @@ func TestCheck(t *testing.T) {
 		ctx, cancel := context.WithTimeout(context.Background(), 2*time.Minute) // watchdog only
 		defer cancel()
 		arg := ""
-		if i < len(lits) {
+		kind := "literal"
+		switch {
+		case i < len(lits):
 			arg = lits[i].arg
-		} else {
-			arg = empties[i-len(lits)]
+		case i < len(lits)+len(empties):
+			arg, kind = empties[i-len(lits)], "empty-label"
+		case i < len(lits)+len(empties)+len(badPorts):
+			arg, kind = badPorts[i-len(lits)-len(empties)], "bad-port"
+		default:
+			arg, kind = emptyPorts[i-len(lits)-len(empties)-len(badPorts)], "empty-port"
 		}
 		c := map[string]any{"arg": arg}
 		var res ech.ResolveResult
@@ -1077,6 +1088,21 @@ func TestCheck(t *testing.T) {
 				r.Violate("forms", i, "literal:wrong-result", fmt.Sprintf("Resolve(%q) = addresses %v, %d HTTPS records; want exactly [%s]", arg, got, len(res.HTTPS), want), c)
 			case l.port != 0 && res.Port != l.port:
 				r.Violate("forms", i, "literal:wrong-port", fmt.Sprintf("Resolve(%q) reports port %d, want %d", arg, res.Port, l.port), c)
+			}
+			return
+		}
+		if kind == "bad-port" || kind == "empty-port" {
+			r.Count("odd_port_forms", 1)
+			for _, q := range qlog {
+				if strings.Contains(q.Name, ":") || q.Name != "a.zz" && !strings.HasSuffix(q.Name, ".a.zz") {
+					r.Violate("forms", i, "Q1:malformed-qname:port-in-name", fmt.Sprintf("Resolve(%q) asked for %q", arg, q.Name), c)
+					return
+				}
+			}
+			if kind == "empty-port" {
+				if got := fromNet(res.Address); err != nil || len(got) != 1 || got[0] != netip.MustParseAddr("10.1.2.3") {
+					r.Violate("forms", i, "forms:empty-port-not-the-default-port", fmt.Sprintf("Resolve(%q) = %v, %v; an empty port means the default port, a.zz has address 10.1.2.3", arg, got, err), c)
+				}
 			}
 			return
 		}
